@@ -4,14 +4,14 @@
 #  - ./check Cxx against the patched tree -> caught / missed.  Keeps confirmed ones under /verif/seeded/Cxx-mN/.
 set -u
 PID="$1"; M="$2"; shift 2
-SRC="/tmp/seed/$PID/out/$M"
+SRC="${SEED_ROOT:-/tmp/seed2}/$PID/out/$M"; TAG="${SEED_TAG:-r2}"
 HERE="$(cd "$(dirname "${BASH_SOURCE[0]}")/.." && pwd)"
 [ -f "$SRC/patch.diff" ] || { echo "no patch in $SRC"; exit 3; }
 W="$(mktemp -d /tmp/seval.XXXXXX)"
 trap 'git -C /repo worktree remove --force "$W" >/dev/null 2>&1; rm -rf "$W"' EXIT
 git -C /repo worktree add --detach "$W" HEAD >/dev/null 2>&1
 export TMPDIR="$W/.tmp"; mkdir -p "$TMPDIR"
-LOG="$HERE/scratch/seed_$PID-$M.log"; mkdir -p "$HERE/scratch"; : > "$LOG"
+LOG="$HERE/scratch/seed_$PID-$TAG$M.log"; mkdir -p "$HERE/scratch"; : > "$LOG"
 ( cd /tmp && PYTHONPATH="$W/src" timeout 900 /venv/bin/python "$SRC/demo.py" ) >>"$LOG" 2>&1; D0=$?
 T0=""; T1=""
 if [ $# -gt 0 ]; then
@@ -30,9 +30,9 @@ BY="$(echo "$OUT" | grep -E '^VIOLATION' | sed -E 's/.*replay=replays\/[A-Z0-9]+
 CONF=no; [ $D0 -eq 0 ] && [ $D1 -ne 0 ] && CONF=yes
 echo "$PID $M: demo clean=$D0 patched=$D1 confirmed=$CONF | tests clean: [$T0] patched: [$T1] | check: $CAUGHT ($BY)"
 if [ "$CONF" = yes ]; then
-  mkdir -p "$HERE/seeded/$PID-$M"
-  cp "$SRC/patch.diff" "$SRC/demo.py" "$HERE/seeded/$PID-$M/"
-  python3 - "$SRC/meta.json" "$HERE/seeded/$PID-$M/meta.json" "$PID" "$CAUGHT" "$BY" "$T0" "$T1" "$D0" "$D1" <<'PY'
+  mkdir -p "$HERE/seeded/$PID-$TAG$M"
+  cp "$SRC/patch.diff" "$SRC/demo.py" "$HERE/seeded/$PID-$TAG$M/"
+  python3 - "$SRC/meta.json" "$HERE/seeded/$PID-$TAG$M/meta.json" "$PID" "$CAUGHT" "$BY" "$T0" "$T1" "$D0" "$D1" <<'PY'
 import json, sys
 src, dst, pid, caught, by, t0, t1, d0, d1 = sys.argv[1:10]
 try: m = json.load(open(src))
